@@ -64,13 +64,28 @@ vg_prepare_inmodule() {
   done
 }
 
+# vg_inmodule_forget <n>: drop a generated tree again (its files and its glue)
+vg_inmodule_forget() {
+  rm -rf "$VERIF_SCRATCH/inmod/$VGI_REL/gen_$1" "$VERIF_SCRATCH/inmod/$VGI_REL/glue_$1"
+  VGI_NAMES="$(printf '%s\n' $VGI_NAMES | grep -vx "$1" | tr '\n' ' ')"
+}
+
+# vg_inmodule_trybuild <n>: go build of one generated tree alone (through an overlay of everything generated so far);
+# prints the compiler output, returns its status. Leaves $VERIF_SCRATCH/overlay.json overwritten.
+vg_inmodule_trybuild() {
+  vb_overlay_begin
+  vg_inmodule_overlay internal/zzverif/zztrybuild zztrybuild
+  vb_overlay_end
+  (cd "$VERIF_REPO" && go build -overlay "$VERIF_SCRATCH/overlay.json" "./$VGI_REL/gen_$1/..." 2>&1)
+}
+
 vg_inmodule_overlay() {
   local pkgdir="$1" pkgname="$2"
   local root="$VERIF_SCRATCH/inmod" f n imports=""
   while IFS= read -r f; do
     vb_overlay_add "${f#"$root"/}" "$f"
   done < <(find "$root/$VGI_REL" -type f -name '*.go' | sort)
-  for n in $VGI_NAMES; do
+  for n in $(printf '%s\n' $VGI_NAMES | sort -u); do
     imports="$imports	_ \"$VGI_MOD/glue_$n\"
 "
   done
